@@ -25,7 +25,7 @@ REQUIRED = {'svd-structure': 300, 'svd-error-bound': 200, 'svd-rank-minimal':
     300, 'svd-exact-rank': 40, 'skel-size': 1000, 'skel-product': 1000,
     'skel-rank-rule': 800, 'skel-give_to': 500, 'msvd-product': 300,
     'svd_matrix-roundtrip': 20, 'svd_matrix-interleaving': 100,
-    'svd_matrix-cap': 40}
+    'svd_matrix-cap': 40, 'skel-exact-tie': 100}
 ASSUMPTIONS = ['dense SVD (LAPACK) is the reference for singular values',
     'rounding noise of computed singular values: 1e3*eps*s_1 (SVD), '
     'eigenvalues of the Gram matrix: 1e3*eps*s_1^2 (matrix_svd)',
@@ -43,6 +43,8 @@ def gen_cases(seed, tier):
             'exact': bool(j % 2)})
     for j in range(2800 if q else 50000):
         out.append({'kind': 'matrix', 'seed': int(rng.integers(1 << 62))})
+    for j in range(200 if q else 4000):
+        out.append({'kind': 'special', 'seed': int(rng.integers(1 << 62))})
     for qq in ([1, 2, 3] if q else [1, 2, 3, 4]):
         N = 2 ** qq
         for blk in range(0, N * N, 64):
@@ -327,6 +329,55 @@ def run_matrix(case, ctx):
         'thresholds': pick[:3]})
 
 
+def run_special(case, ctx):
+    """(a) square matrices that are symmetric only up to 1e-6: they must be
+    factorised as what they are; (b) exact ties: singular values that are small
+    integers (permuted diagonal matrices, everything exactly representable) and
+    e equal to a tail energy - 'discarded tail energy <= e' includes equality."""
+    import teneva
+    rng = np.random.default_rng(case['seed'])
+    k = int(rng.integers(2, 9))
+    S = rng.normal(size=(k, k))
+    S = S + S.T
+    A = S * (1 + 1e-6 * rng.normal(size=(k, k))) * 10.0 ** rng.uniform(-6, 6)
+    sv = np.linalg.svd(A, compute_uv=False)
+    for give_to in ('l', 'm', 'r'):
+        teneva.matrix_skeleton(A, 1e-9 * sv[0], 1e12, rel=False,
+            give_to=give_to)
+    teneva.svd(A, 1e-9 * sv[0])
+    if k in (4, 6, 8):          # square first unfolding of a d = 3 array
+        B = A.reshape(k, 2, k // 2)
+        teneva.svd(B, 1e-9 * sv[0])
+    ctx.event('nearly-symmetric-matrices')
+    # exact ties
+    m, n = int(rng.integers(2, 8)), int(rng.integers(2, 8))
+    kk = min(m, n)
+    vals = np.sort(rng.choice(np.arange(1, 13), size=kk, replace=False))[::-1]
+    D = np.zeros((m, n))
+    D[np.arange(kk), np.arange(kk)] = vals
+    D = D[rng.permutation(m)][:, rng.permutation(n)]
+    D = D * (2.0 ** int(rng.integers(-20, 21)))
+    sc = D[D != 0]
+    unit = float(np.min(np.abs(sc))) / float(vals[-1])
+    e = float(vals[-1]) * unit            # == smallest singular value, exactly
+    want = max(1, kk - 1)
+    for give_to in ('l', 'm', 'r'):
+        U, V = teneva.matrix_skeleton(D, e, 1e12, rel=False, give_to=give_to)
+        ctx.check('skel-exact-tie', U.shape[1] == want, f'matrix_skeleton: '
+            f'singular values {(vals * unit).tolist()}, e = {e} equals the '
+            f'smallest one exactly: inner size {U.shape[1]}, expected {want} '
+            '(tail energy <= e includes equality)')
+    if float(vals[-1]) / float(vals[0]) in (0.5, 0.25, 0.125):
+        U, V = teneva.matrix_skeleton(D, float(vals[-1]) / float(vals[0]),
+            1e12, rel=True)
+        ctx.check('skel-exact-tie', U.shape[1] == want, 'matrix_skeleton('
+            'rel=True): exact tie of the relative tail energy with e')
+    U, V = teneva.matrix_svd(D, e)
+    ctx.check('skel-exact-tie', U.shape[1] == want, f'matrix_svd: exact tie, '
+        f'inner size {U.shape[1]}, expected {want}')
+    ctx.nontrivial(['special', k, m, n])
+
+
 def bits(i, q):
     return [(i >> k) & 1 for k in range(q)]
 
@@ -406,5 +457,5 @@ def run_svd_matrix(case, ctx):
 
 
 def run_case(case, ctx):
-    {'svd': run_svd, 'matrix': run_matrix, 'unit': run_unit,
+    {'svd': run_svd, 'matrix': run_matrix, 'unit': run_unit, 'special': run_special,
         'svd_matrix': run_svd_matrix}[case['kind']](case, ctx)
